@@ -582,6 +582,10 @@ class XPathToken(Token[ta.XPathTokenType]):
                 case AbstractQName():
                     if not isinstance(op2, (AbstractQName, UntypedAtomic)):
                         raise TypeError(msg.format(type(op1), type(op2)))
+                case UntypedAtomic():
+                    if isinstance(op2, UntypedAtomic):
+                        yield str(op1), str(op2)
+                        continue
 
             yield op1, op2
 
